@@ -15,8 +15,10 @@ CONSTANTS
   LifoQueue = TRUE
   DrainOnlyAtStop = FALSE
   ErrKeepsPolling = FALSE
+  MaxPerPoll = 0
+  Rewake = FALSE
 SPECIFICATION Spec
 VIEW View
-INVARIANTS C07_Fifo C07_AllAccounted C01_DrainReleases
+INVARIANTS C07_Fifo C07_AllAccounted C07_QueuedMeansOwed C01_DrainReleases
 PROPERTIES Steps
 CHECK_DEADLOCK FALSE
